@@ -11,7 +11,7 @@ for id in $IDS; do
   if ! (git apply --3way $d/patch.diff 2>/dev/null || git apply $d/patch.diff 2>/dev/null); then echo "$id: PATCH-DOES-NOT-APPLY"; git checkout -q -- .; continue; fi
   git reset -q
   cd /verif
-  out=$(./check $id --tier quick 2>&1); rc=$?
+  pid=${id:0:3}; out=$(./check $pid --tier quick 2>&1); rc=$?
   nv=$(echo "$out" | grep -c "^VIOLATION")
   first=$(echo "$out" | grep "^VIOLATION" | head -1 | cut -c1-170)
   echo "$id: rc=$rc violations=$nv $first $(echo "$out" | grep -E "TOOL-ERROR" | head -1 | cut -c1-200)"
